@@ -19,13 +19,13 @@ func init() {
 			if tier == "thorough" {
 				return 3000
 			}
-			return 150
+			return 300
 		},
 		MinNT: func(tier string) int {
 			if tier == "thorough" {
 				return 1000
 			}
-			return 40
+			return 80
 		},
 		Run: runC13,
 		Assumptions: []string{
